@@ -45,3 +45,7 @@ CORPUS += [
     M("result-from-first-task-only", D, "        devices = await asyncio.gather(*protocol.tasks)", "        devices = await asyncio.gather(*list(protocol.tasks)[:1])"),
     M("n-gather-over-list", D, "        devices = await asyncio.gather(*protocol.tasks)", "        devices = await asyncio.gather(*list(protocol.tasks))", "S"),
 ]
+# round 6 (C18.a / C17): the reported ip is the source address of the reply
+CORPUS += [
+    M("ip-from-payload", D, '            return {"ip": ip, "port": port,', '            return {"ip": str(ip_address), "port": port,'),
+]
